@@ -718,6 +718,7 @@ class Interp:
         return 0 if g else 1
 
     def cstr(s, st, p):
+        if not isc(p): p = s.conc_int(st, p, 'string pointer')
         out = []
         while True:
             c = s.load(st, p, 1)
